@@ -229,6 +229,21 @@ func (c *Ctx) ruleActiveDestinations() {
 				r.Bad(rule, fk, "returns memory of an active destination", c.P.Pos(fn.Pos()), "the function returns a pointer into an active destination (e.g. its path list) instead of a snapshot")
 			}
 		}
+		if fl.ReturnedFresh && !fl.Returned && a.IsRoot(ir.Outer(fn)) == false {
+			// a fresh object (e.g. a "snapshot") that still holds pointers into the active destination
+			locked := true
+			for _, e2 := range a.In[fn] {
+				_, must, reached := a.At(e2.Site)
+				if reached && must[lkShard] < locks.R {
+					locked = false
+				}
+			}
+			if locked && len(a.In[fn]) > 0 {
+				r.Ok(rule, fk, "returns object holding active memory", c.P.Pos(fn.Pos()), "helper: every caller holds the shard lock")
+			} else {
+				r.Bad(rule, fk, "returns object holding active memory", c.P.Pos(fn.Pos()), "the returned object is fresh but still points into an active destination (for instance it shares the path list's backing array): it is not a snapshot, and its reader runs without the shard lock")
+			}
+		}
 		for _, es := range fl.Escapes {
 			target := "?"
 			if es.Field != nil {
